@@ -23,7 +23,7 @@ class TranslationError(Exception):
 # ------------------------------------------------------------------ configuration
 # module name -> (source path, [functions], {function: {param: type}})
 # types: T (real/tensor element), Z (int), B (bool), optT/optZ/optB, fun (T->T), funB (T->bool),
-#        optfun
+#        optfun, LT (list of T: the entries along the last axis)
 MODULES = {
     "Interpolation": (
         "inferno/functional/interpolation.py",
@@ -69,6 +69,14 @@ MODULES = {
         {"adaptive_currents_linear": {"spikes": "B"},
          "adaptive_thresholds_linear_voltage": {"spikes": "optB"},
          "adaptive_thresholds_linear_spike": {"spikes": "B"}},
+    ),
+    # the reductions over the adaptation axis K: `adaptations` is one neuron's vector of K values (list (T N)),
+    # torch.sum(adaptations, dim=-1) is `tsum`
+    "NeuronApply": (
+        "inferno/neural/functional/neuron_adaptation.py",
+        ["apply_adaptive_currents", "apply_adaptive_thresholds"],
+        {"apply_adaptive_currents": {"adaptations": "LT"},
+         "apply_adaptive_thresholds": {"adaptations": "LT"}},
     ),
     "Math": (
         "inferno/core/math.py",
@@ -121,6 +129,7 @@ COQ_TYPE = {
     "T": "T N", "Z": "Z", "B": "bool",
     "optT": "option (T N)", "optZ": "option Z", "optB": "option bool",
     "fun": "T N -> T N", "funB": "T N -> bool", "optfun": "option (T N -> T N)",
+    "LT": "list (T N)",       # a vector along the LAST tensor axis (only consumer: torch.sum(x, dim=-1))
 }
 
 RESERVED = {"max": "max_", "min": "min_", "range": "range_", "exp": "exp_", "abs": "abs_",
@@ -268,7 +277,7 @@ class Translator:
             return self.toZ(e)
         if ty == "B":
             return self.toB(e)
-        if ty in ("fun", "funB") and e[1] == ty:
+        if ty in ("fun", "funB", "LT") and e[1] == ty:
             return e[0]
         if ty.startswith("opt"):
             if e[1] == ty:
@@ -379,6 +388,13 @@ class Translator:
                 return ta
             raise TranslationError("tuple branches of different type")
         s = {ta, tb}
+        if "none" in s and len(s) == 2:      # `x if c else None`: an optional value
+            other = (s - {"none"}).pop()
+            if other in ("T", "Z", "B"):
+                return "opt" + other
+            if other in ("optT", "optZ", "optB"):
+                return other
+            raise TranslationError(f"cannot unify {ta} and {tb}")
         if "T" in s or s == {"lit"} or s == {"lit", "B"}:
             return "T"
         if s <= {"Z", "lit"}:
@@ -491,6 +507,11 @@ class Translator:
                         return (self.toT(v), "T")
                     return v
                 raise TranslationError(f"unsupported method call {ast.unparse(n)}")
+        if f == "torch.sum" and len(args) == 1 and set(kws) == {"dim"} and ast.unparse(kws["dim"]) == "-1":
+            v = E(args[0])
+            if v[1] != "LT":
+                raise TranslationError(f"torch.sum(..., dim=-1) of a value that is not a last-axis vector: {ast.unparse(n)}")
+            return (f"(tsum N {v[0]})", "T")
         if f in ("torch.exp", "exp", "math.exp") and len(args) == 1:
             return (f"(exp N {self.toT(E(args[0]))})", "T")
         if f in ("torch.abs", "abs") and len(args) == 1:
@@ -601,6 +622,18 @@ class Translator:
             for t, a in reversed(lets):
                 txt = f"(let {cname(t)} := {cname(a)} in\n  {txt})"
             return (txt, body[1])
+        if isinstance(s, ast.Assign) and len(s.targets) == 1 and isinstance(s.targets[0], ast.Tuple) \
+                and all(isinstance(t, ast.Name) for t in s.targets[0].elts):
+            # `a, b, c = f(...)`: destructuring of a tuple-valued kernel
+            v = self.expr(s.value, env)
+            names = [t.id for t in s.targets[0].elts]
+            if not isinstance(v[1], tuple) or len(v[1]) - 1 != len(names) or len(set(names)) != len(names):
+                raise TranslationError(f"tuple assignment of a non-tuple / wrong arity: {ast.unparse(s)[:80]}")
+            env2 = dict(env)
+            for nm, t in zip(names, v[1][1:]):
+                env2[nm] = t
+            body = self.block(rest, env2)
+            return (f"(let '({', '.join(cname(nm) for nm in names)}) := {v[0]} in\n  {body[0]})", body[1])
         if isinstance(s, ast.Assign):
             if len(s.targets) != 1 or not isinstance(s.targets[0], ast.Name):
                 raise TranslationError("assignment target")
@@ -673,7 +706,7 @@ def coq_ret_type(t) -> str:
     return COQ_TYPE[t]
 
 
-def translate_module(modname: str, repo: str = REPO):
+def translate_module(modname: str, repo: str = REPO, fns_out: dict | None = None):
     path, names, overrides = MODULES[modname]
     src = open(os.path.join(repo, path)).read()
     tree = ast.parse(src)
@@ -720,6 +753,8 @@ def translate_module(modname: str, repo: str = REPO):
             "lines": [node.lineno, node.end_lineno],
             "sha256": hashlib.sha256(ast.dump(node).encode()).hexdigest(),
         })
+    if fns_out is not None:
+        fns_out.update(fns)
     return "\n".join(out), manifest
 
 
@@ -1468,8 +1503,381 @@ def translate_constraints(repo: str = REPO):
     return CONSTRAINTS_PRELUDE + "\n".join(out), man
 
 
+
+# ------------------------------------------------------------------ special: the eight neuron classes
+# inferno/neural/neurons/linear.py, nonlinear.py (+ mixins.py for the `spike` property): the CALL STRUCTURE of
+# _integrate_v, forward, clear and spike of LIF, ALIF, GLIF1, GLIF2, QIF, Izhikevich, EIF, AdEx, composed from the
+# generated kernels (Gen/NeuronDynamics, NeuronAdaptation, NeuronApply) exactly as the methods compose them.
+# Reading: everything is per ELEMENT (one neuron, one batch sample; for the adaptation update additionally one
+# adaptation index k); `self.<attr>` reads become parameters `self_<attr>` (sorted by name); the state assignments
+# `self.voltage = ...`, `self.refrac = ...` are tracked, so that a later read of `self.refrac` is the value assigned
+# by then (the adaptation update reads the NEW refrac).  Only the statement shapes listed in _nc_forward are accepted.
+# NOT generated (stays in the hand-written model, tied by the correspondence): broadcasting over batch / neuron / K
+# axes and the batch reduction inside the adaptation setters.
+NC_FILES = {"inferno/neural/neurons/linear.py": ["LIF", "ALIF", "GLIF1", "GLIF2"],
+            "inferno/neural/neurons/nonlinear.py": ["QIF", "Izhikevich", "EIF", "AdEx"]}
+# attribute -> type in the thresholding call (cell level).  The adaptation buffers are whole K-vectors there.
+NC_ATTRS = {a: "T" for a in (
+    "step_time rest_v reset_v reset_v_add reset_v_mul thresh_v thresh_eq_v refrac_t time_constant tc_membrane "
+    "resistance crit_v affinity rheobase_v sharpness voltage refrac").split()}
+NC_ADAPT_BUFFERS = ("threshold_adaptation", "current_adaptation")
+NC_PER_K = ("tc_adaptation", "rc_adaptation", "adapt_vc_coupling", "adapt_increment") + NC_ADAPT_BUFFERS
+NC_STATE = ("voltage", "refrac")
+NC_ADAPT_COND = "adapt or (adapt is None and self.training)"
+
+
+def _nc_strip(body):
+    return [st for st in body if not (isinstance(st, ast.Expr) and isinstance(st.value, ast.Constant)
+                                      and isinstance(st.value.value, str))]
+
+
+class _NCSelf(ast.NodeTransformer):
+    """self.X (read) -> Name self_X, or the expression currently assigned to the state attribute X"""
+
+    def __init__(self, where, state, allowed, used):
+        self.where, self.state, self.allowed, self.used = where, state, allowed, used
+
+    def visit_Attribute(self, n):
+        if isinstance(n.value, ast.Name) and n.value.id == "self":
+            if n.attr in self.state:
+                return ast.Name(id=self.state[n.attr], ctx=ast.Load())
+            if n.attr not in self.allowed:
+                raise TranslationError(f"{self.where}: read of self.{n.attr} is outside the modelled attributes")
+            self.used.add(n.attr)
+            return ast.Name(id="self_" + n.attr, ctx=ast.Load())
+        return self.generic_visit(n)
+
+    def visit_Name(self, n):
+        if n.id == "self":
+            raise TranslationError(f"{self.where}: bare use of self")
+        return n
+
+
+def _nc_params(used, types):
+    return " ".join(f"(self_{a} : {COQ_TYPE[types[a]]})" for a in sorted(used))
+
+
+def _nc_args(used):
+    return " ".join(f"self_{a}" for a in sorted(used))
+
+
+def translate_neuron_classes(repo: str = REPO):
+    # signatures of the kernels the methods call (as `nf.<kernel>`)
+    kfns: dict[str, Fn] = {}
+    for m in ("NeuronDynamics", "NeuronAdaptation", "NeuronApply"):
+        translate_module(m, repo, kfns)
+    nf = {"nf." + k: v for k, v in kfns.items()}
+    out = ["(* GENERATED by tools/translate.py from inferno/neural/neurons/{linear,nonlinear,mixins}.py -- do not edit *)",
+           "From Coq Require Import ZArith Bool List.",
+           "From Inferno Require Import Base.Num Gen.NeuronDynamics Gen.NeuronAdaptation Gen.NeuronApply.", ""]
+    man = []
+    # ---- mixins.py: SpikeRefractoryMixin.spike  ==  self.refrac == getattr(self, self.__absrefrac_attr)
+    mpath = "inferno/neural/neurons/mixins.py"
+    mtree = ast.parse(open(os.path.join(repo, mpath)).read())
+    mcls = [n for n in mtree.body if isinstance(n, ast.ClassDef) and n.name == "SpikeRefractoryMixin"]
+    if not mcls:
+        raise TranslationError("SpikeRefractoryMixin not found")
+    mm = {n.name: n for n in mcls[0].body if isinstance(n, ast.FunctionDef)}
+    if "spike" not in mm or [ast.unparse(d) for d in mm["spike"].decorator_list] != ["property"]:
+        raise TranslationError("SpikeRefractoryMixin.spike: property not found")
+    sb = _nc_strip(mm["spike"].body)
+    if len(sb) != 1 or not isinstance(sb[0], ast.Return):
+        raise TranslationError("SpikeRefractoryMixin.spike: expected a single return")
+    ib = [ast.unparse(x) for x in _nc_strip(mm["__init__"].body)] if "__init__" in mm else []
+    if [a.arg for a in mm["__init__"].args.args] != ["self", "refrac", "absrefrac"] \
+            or "self.__absrefrac_attr = absrefrac" not in ib:
+        raise TranslationError("SpikeRefractoryMixin.__init__: expected (self, refrac, absrefrac) storing absrefrac")
+    spike_expr = sb[0].value
+    man.append({"module": "NeuronClasses", "source": mpath, "function": "SpikeRefractoryMixin.spike",
+                "lines": [mm["spike"].lineno, mm["spike"].end_lineno],
+                "sha256": hashlib.sha256(ast.dump(mm["spike"]).encode()).hexdigest()})
+
+    done: dict[str, dict] = {}     # class -> {"integ": used attrs, "cell": used attrs, ...}
+    for path, classes in NC_FILES.items():
+        tree = ast.parse(open(os.path.join(repo, path)).read())
+        cdefs = {n.name: n for n in tree.body if isinstance(n, ast.ClassDef)}
+        for cn in classes:
+            if cn not in cdefs:
+                raise TranslationError(f"{path}: class {cn} not found")
+            meths = {n.name: n for n in cdefs[cn].body if isinstance(n, ast.FunctionDef)
+                     and not any(ast.unparse(d).endswith(".setter") for d in n.decorator_list)}
+            for need in ("__init__", "_integrate_v", "forward", "clear"):
+                if need not in meths:
+                    raise TranslationError(f"{cn}.{need}: method not found")
+            info = done[cn] = {}
+            out.append(f"(* ---------------------------------------------------------------- {cn} ({path}) *)")
+            # ---------------- _integrate_v(self, masked_inputs)
+            f = meths["_integrate_v"]
+            where = f"{cn}._integrate_v"
+            if [a.arg for a in f.args.args] != ["self", "masked_inputs"] or f.args.kwonlyargs or f.args.vararg or f.args.kwarg:
+                raise TranslationError(f"{where}: expected (self, masked_inputs)")
+            body = _nc_strip(f.body)
+            if len(body) != 1 or not isinstance(body[0], ast.Return):
+                raise TranslationError(f"{where}: expected a single return")
+            deleg = None
+            if isinstance(body[0].value, ast.Call) and ast.unparse(body[0].value.func).endswith("._integrate_v"):
+                call = body[0].value
+                deleg = ast.unparse(call.func)[: -len("._integrate_v")]
+                if deleg not in done or [ast.unparse(a) for a in call.args] != ["self", "masked_inputs"] or call.keywords:
+                    raise TranslationError(f"{where}: unsupported delegation {ast.unparse(call)}")
+                info["integ"] = set(done[deleg]["integ"])
+                out.append(f"Definition {cn}_integrate_v (N : Num) := {deleg}_integrate_v N.\n")
+            else:
+                used: set[str] = set()
+                e = _NCSelf(where, {}, NC_ATTRS, used).visit(ast.parse(ast.unparse(body[0].value)).body[0].value)
+                tr = Translator(nf)
+                env = {"self_" + a: t for a, t in NC_ATTRS.items()}
+                env["masked_inputs"] = "T"
+                v = tr.expr(e, env)
+                if v[1] != "T" or tr.extras:
+                    raise TranslationError(f"{where}: does not return one number per element")
+                info["integ"] = used
+                out.append(f"Definition {cn}_integrate_v (N : Num) {_nc_params(used, NC_ATTRS)} (masked_inputs : T N) : T N :=\n"
+                           f"  {v[0]}.\n")
+            man.append({"module": "NeuronClasses", "source": path, "function": where, "lines": [f.lineno, f.end_lineno],
+                        "sha256": hashlib.sha256(ast.dump(f).encode()).hexdigest()})
+            # ---------------- forward
+            _nc_forward(cn, meths["forward"], nf, done, out, deleg)
+            f = meths["forward"]
+            man.append({"module": "NeuronClasses", "source": path, "function": f"{cn}.forward", "lines": [f.lineno, f.end_lineno],
+                        "sha256": hashlib.sha256(ast.dump(f).encode()).hexdigest()})
+            # ---------------- clear
+            _nc_clear(cn, meths["clear"], done, out)
+            f = meths["clear"]
+            man.append({"module": "NeuronClasses", "source": path, "function": f"{cn}.clear", "lines": [f.lineno, f.end_lineno],
+                        "sha256": hashlib.sha256(ast.dump(f).encode()).hexdigest()})
+            # ---------------- spike: the constructor names the attribute holding the absolute refractory period
+            calls = [st.value for st in ast.walk(meths["__init__"]) if isinstance(st, ast.Expr) and isinstance(st.value, ast.Call)
+                     and ast.unparse(st.value.func) in ("SpikeRefractoryMixin.__init__", "LIF.__init__")]
+            attr = None
+            for c_ in calls:
+                if ast.unparse(c_.func) == "SpikeRefractoryMixin.__init__":
+                    if len(c_.args) != 3 or c_.keywords or not isinstance(c_.args[2], ast.Constant) \
+                            or not isinstance(c_.args[2].value, str):
+                        raise TranslationError(f"{cn}.__init__: SpikeRefractoryMixin.__init__(self, <refrac>, '<attribute>') expected")
+                    attr = c_.args[2].value
+                elif "LIF" in done:
+                    attr = done["LIF"]["absrefrac"]
+            if attr is None or attr not in NC_ATTRS:
+                raise TranslationError(f"{cn}.__init__: absolute-refractory attribute not found")
+            info["absrefrac"] = attr
+
+            class G(ast.NodeTransformer):
+                def visit_Call(self, n):
+                    if ast.unparse(n) == "getattr(self, self.__absrefrac_attr)":
+                        return ast.Attribute(value=ast.Name(id="self", ctx=ast.Load()), attr=attr, ctx=ast.Load())
+                    return self.generic_visit(n)
+            used = set()
+            e = G().visit(ast.parse(ast.unparse(spike_expr)).body[0].value)
+            e = _NCSelf(f"{cn}.spike", {}, NC_ATTRS, used).visit(e)
+            tr = Translator({})
+            v = tr.expr(e, {"self_" + a: t for a, t in NC_ATTRS.items()})
+            if v[1] != "B" or tr.extras:
+                raise TranslationError(f"{cn}.spike: not a boolean per element")
+            info["spike"] = used
+            out.append(f"Definition {cn}_spike (N : Num) {_nc_params(used, NC_ATTRS)} : bool :=\n  {v[0]}.\n")
+    return "\n".join(out), man
+
+
+def _nc_forward(cn, f, nf, done, out, deleg):
+    """accepted shapes of forward(self, inputs, [adapt=None,] refrac_lock=True, **kwargs):
+         spikes, voltages, refracs = nf.<thresholding kernel>(<keyword arguments>)
+         self.voltage = <local>;  self.refrac = <local>            (state assignments, any order)
+         [ if adapt or (adapt is None and self.training):
+               adaptations = nf.<adaptation kernel>(<keyword arguments>)
+               self.<buffer> = adaptations ]
+         return spikes
+       or the delegation  return LIF.forward(self, inputs, refrac_lock=refrac_lock)"""
+    where = f"{cn}.forward"
+    info = done[cn]
+    a = f.args
+    pos = [x.arg for x in a.args]
+    if pos[:2] != ["self", "inputs"] or a.kwonlyargs or a.vararg or pos[2:] not in (["refrac_lock"], ["adapt", "refrac_lock"]):
+        raise TranslationError(f"{where}: unexpected parameters {pos}")
+    defaults = [ast.unparse(d) for d in a.defaults]
+    if defaults != (["True"] if len(pos) == 3 else ["None", "True"]):
+        raise TranslationError(f"{where}: unexpected defaults {defaults}")
+    has_adapt = "adapt" in pos
+    body = _nc_strip(f.body)
+    if len(body) == 1 and isinstance(body[0], ast.Return) and isinstance(body[0].value, ast.Call) \
+            and ast.unparse(body[0].value.func).endswith(".forward"):
+        call = body[0].value
+        tgt = ast.unparse(call.func)[: -len(".forward")]
+        if tgt not in done or tgt != deleg or has_adapt or done[tgt].get("adapt") is not None \
+                or [ast.unparse(x) for x in call.args] != ["self", "inputs"] \
+                or [(k.arg, ast.unparse(k.value)) for k in call.keywords] != [("refrac_lock", "refrac_lock")]:
+            raise TranslationError(f"{where}: unsupported delegation {ast.unparse(call)}")
+        info["cell"], info["adapt"] = set(done[tgt]["cell"]), None
+        out.append(f"Definition {cn}_forward_cell (N : Num) := {tgt}_forward_cell N.\n")
+        return
+    if not body or not isinstance(body[-1], ast.Return) or ast.unparse(body[-1]) != "return spikes":
+        raise TranslationError(f"{where}: expected to end with `return spikes`")
+    types = dict(NC_ATTRS)
+    for b in NC_ADAPT_BUFFERS:
+        types[b] = "LT"
+    state: dict[str, str] = {}      # state attribute -> local currently stored in it
+    used: set[str] = set()
+    thr = None
+    adapt_block = None
+    for st in body[:-1]:
+        if isinstance(st, ast.Assign) and len(st.targets) == 1 and isinstance(st.targets[0], ast.Tuple):
+            if thr is not None or [ast.unparse(t) for t in st.targets[0].elts] != ["spikes", "voltages", "refracs"] \
+                    or not isinstance(st.value, ast.Call) or ast.unparse(st.value.func) not in nf or st.value.args:
+                raise TranslationError(f"{where}: unsupported statement {ast.unparse(st)[:80]}")
+            if state:
+                raise TranslationError(f"{where}: state assigned before the thresholding call")
+            thr = ast.Assign(targets=st.targets, lineno=0,
+                             value=_NCSelf(where, state, dict(types, _integrate_v="fun"), used).visit(
+                                 ast.parse(ast.unparse(st.value)).body[0].value))
+        elif isinstance(st, ast.Assign) and len(st.targets) == 1 and isinstance(st.targets[0], ast.Attribute) \
+                and ast.unparse(st.targets[0].value) == "self" and st.targets[0].attr in NC_STATE \
+                and isinstance(st.value, ast.Name) and st.value.id in ("spikes", "voltages", "refracs") and thr is not None:
+            state[st.targets[0].attr] = st.value.id
+        elif isinstance(st, ast.If) and has_adapt and adapt_block is None and thr is not None and not st.orelse:
+            if ast.unparse(st.test) != NC_ADAPT_COND:
+                raise TranslationError(f"{where}: adaptation guard is not `{NC_ADAPT_COND}`")
+            ib = st.body
+            if len(ib) != 2 or not (isinstance(ib[0], ast.Assign) and ast.unparse(ib[0].targets[0]) == "adaptations"
+                                    and isinstance(ib[0].value, ast.Call) and ast.unparse(ib[0].value.func) in nf
+                                    and not ib[0].value.args) \
+                    or not (isinstance(ib[1], ast.Assign) and isinstance(ib[1].targets[0], ast.Attribute)
+                            and ast.unparse(ib[1].targets[0].value) == "self" and ib[1].targets[0].attr in NC_ADAPT_BUFFERS
+                            and ast.unparse(ib[1].value) == "adaptations"):
+                raise TranslationError(f"{where}: unsupported adaptation block")
+            buf = ib[1].targets[0].attr
+            kw = {k.arg: ast.unparse(k.value) for k in ib[0].value.keywords}
+            if kw.get("adaptations") != f"self.{buf}":
+                raise TranslationError(f"{where}: the buffer assigned (self.{buf}) is not the one passed as adaptations=")
+            aused: set[str] = set()
+            atypes = dict(NC_ATTRS)
+            for k_ in NC_PER_K:
+                atypes[k_] = "T"
+            ae = _NCSelf(where, dict(state), atypes, aused).visit(ast.parse(ast.unparse(ib[0].value)).body[0].value)
+            adapt_block = (ae, aused, atypes, buf)
+        else:
+            raise TranslationError(f"{where}: unsupported statement {ast.unparse(st)[:80]}")
+    if thr is None:
+        raise TranslationError(f"{where}: no thresholding call")
+    if has_adapt != (adapt_block is not None):
+        raise TranslationError(f"{where}: `adapt` parameter without adaptation block (or the converse)")
+    # ---- cell: (returned spikes, value left in self.voltage, value left in self.refrac)
+    final = [state.get("voltage"), state.get("refrac")]
+    ret_elts = [ast.Name(id="spikes", ctx=ast.Load())]
+    for attr, loc in zip(NC_STATE, final):
+        if loc is None:
+            used.add(attr)
+        ret_elts.append(ast.Name(id=loc if loc is not None else "self_" + attr, ctx=ast.Load()))
+    stmts = [thr, ast.Return(value=ast.Tuple(elts=ret_elts, ctx=ast.Load()))]
+    tr = Translator(nf)
+    env = {"self_" + a_: t for a_, t in types.items()}
+    env.update({"inputs": "T", "refrac_lock": "B", "self__integrate_v": "fun"})
+    v = tr.block(stmts, env)
+    if v[1] != ("tuple", "B", "T", "T") or tr.extras:
+        raise TranslationError(f"{where}: the step does not produce (spikes, voltages, refracs) per element")
+    uses_dyn = "_integrate_v" in used
+    used.discard("_integrate_v")
+    if uses_dyn:
+        used |= info["integ"]
+        dyn = (f"(let self__integrate_v := (fun masked_inputs : T N => {cn}_integrate_v N {_nc_args(info['integ'])} masked_inputs) in\n  ")
+        txt = dyn + v[0] + ")"
+    else:
+        txt = v[0]
+    info["cell"] = used
+    out.append(f"Definition {cn}_forward_cell (N : Num) {_nc_params(used, types)} (inputs : T N) (refrac_lock : bool)"
+               f" : bool * T N * T N :=\n  {txt}.\n")
+    # ---- adaptation update, per (batch sample, adaptation index k)
+    if adapt_block is None:
+        info["adapt"] = None
+        return
+    ae, aused, atypes, buf = adapt_block
+    tr = Translator(nf)
+    env = {"self_" + a_: t for a_, t in atypes.items()}
+    env.update({"inputs": "T", "refrac_lock": "B", "spikes": "B", "voltages": "T", "refracs": "T"})
+    v = tr.expr(ae, env)
+    if v[1] != "T" or tr.extras:
+        raise TranslationError(f"{where}: the adaptation update is not one number per element")
+    info["adapt"], info["buffer"] = aused, buf
+    out.append(f"(* the value handed to the `{buf}` setter, per batch sample and adaptation index *)\n"
+               f"Definition {cn}_forward_adapt (N : Num) {_nc_params(aused, atypes)} (spikes : bool) (voltages : T N) "
+               f"(refracs : T N) (refrac_lock : bool) : T N :=\n  {v[0]}.\n")
+    out.append(f"(* `{NC_ADAPT_COND}` *)\n"
+               f"Definition {cn}_forward_adapts (adapt : option bool) (self_training : bool) : bool :=\n"
+               "  (match adapt with Some adapt => adapt | None => self_training end).\n")
+
+
+def _nc_clear(cn, f, done, out):
+    """accepted shapes of clear(self, [keep_adaptations=True,] **kwargs):
+         self.voltage = torch.full_like(self.voltage, <expr>);  self.refrac = torch.zeros_like(self.refrac)
+         [ if not keep_adaptations: self.<buffer> = torch.zeros_like(self.<buffer>) ]
+       or the delegation  LIF.clear(self, **kwargs)"""
+    where = f"{cn}.clear"
+    info = done[cn]
+    pos = [x.arg for x in f.args.args]
+    if pos not in (["self"], ["self", "keep_adaptations"]) or f.args.kwonlyargs or f.args.vararg \
+            or [ast.unparse(d) for d in f.args.defaults] != (["True"] if len(pos) == 2 else []):
+        raise TranslationError(f"{where}: unexpected parameters")
+    body = _nc_strip(f.body)
+    if len(body) == 1 and isinstance(body[0], ast.Expr) and isinstance(body[0].value, ast.Call) \
+            and ast.unparse(body[0].value.func).endswith(".clear"):
+        tgt = ast.unparse(body[0].value.func)[: -len(".clear")]
+        if tgt not in done or len(pos) != 1 or done[tgt].get("clear_buf") is not None \
+                or ast.unparse(body[0].value) != f"{tgt}.clear(self, **kwargs)":
+            raise TranslationError(f"{where}: unsupported delegation")
+        info["clear"], info["clear_buf"] = set(done[tgt]["clear"]), None
+        out.append(f"Definition {cn}_clear_cell (N : Num) := {tgt}_clear_cell N.\n")
+        return
+    vals: dict[str, ast.AST] = {}
+    buf = None
+    for st in body:
+        if isinstance(st, ast.Assign) and len(st.targets) == 1 and isinstance(st.targets[0], ast.Attribute) \
+                and ast.unparse(st.targets[0].value) == "self" and st.targets[0].attr in NC_STATE \
+                and st.targets[0].attr not in vals and buf is None:
+            attr = st.targets[0].attr
+            c_ = st.value
+            if isinstance(c_, ast.Call) and ast.unparse(c_.func) == "torch.full_like" and len(c_.args) == 2 and not c_.keywords \
+                    and ast.unparse(c_.args[0]) == f"self.{attr}":
+                vals[attr] = c_.args[1]
+            elif isinstance(c_, ast.Call) and ast.unparse(c_.func) == "torch.zeros_like" and len(c_.args) == 1 \
+                    and not c_.keywords and ast.unparse(c_.args[0]) == f"self.{attr}":
+                vals[attr] = ast.Constant(value=0)
+            else:
+                raise TranslationError(f"{where}: unsupported statement {ast.unparse(st)[:80]}")
+        elif isinstance(st, ast.If) and len(pos) == 2 and buf is None and not st.orelse \
+                and ast.unparse(st.test) == "not keep_adaptations" and len(st.body) == 1:
+            a_ = st.body[0]
+            ok = isinstance(a_, ast.Assign) and isinstance(a_.targets[0], ast.Attribute) \
+                and ast.unparse(a_.targets[0].value) == "self" and a_.targets[0].attr in NC_ADAPT_BUFFERS \
+                and ast.unparse(a_.value) == f"torch.zeros_like(self.{a_.targets[0].attr})"
+            if not ok:
+                raise TranslationError(f"{where}: unsupported adaptation reset")
+            buf = a_.targets[0].attr
+        else:
+            raise TranslationError(f"{where}: unsupported statement {ast.unparse(st)[:80]}")
+    if (len(pos) == 2) != (buf is not None):
+        raise TranslationError(f"{where}: keep_adaptations without adaptation reset (or the converse)")
+    used: set[str] = set()
+    elts = []
+    for attr in NC_STATE:
+        if attr not in vals:
+            used.add(attr)
+            elts.append(ast.Name(id="self_" + attr, ctx=ast.Load()))
+        else:
+            elts.append(_NCSelf(where, {}, NC_ATTRS, used).visit(ast.parse(ast.unparse(vals[attr])).body[0].value))
+    tr = Translator({})
+    v = tr.expr(ast.Tuple(elts=elts, ctx=ast.Load()), {"self_" + a_: t for a_, t in NC_ATTRS.items()})
+    if v[1] != ("tuple", "T", "T") or tr.extras:
+        raise TranslationError(f"{where}: not (voltage, refrac) per element")
+    info["clear"], info["clear_buf"] = used, buf
+    out.append(f"(* (voltage, refrac) left by clear() *)\n"
+               f"Definition {cn}_clear_cell (N : Num) {_nc_params(used, NC_ATTRS)} : T N * T N :=\n  {v[0]}.\n")
+    if buf is not None:
+        out.append(f"(* the entry of `{buf}` left by clear(keep_adaptations) *)\n"
+                   f"Definition {cn}_clear_adapt (N : Num) (self_{buf} : T N) (keep_adaptations : bool) : T N :=\n"
+                   f"  (if (negb keep_adaptations) then (zero N) else self_{buf}).\n")
+
+
 SPECIAL = {"Conv": translate_conv_outsize, "SpikeMath": translate_spikemath,
-           "Constraints": translate_constraints}
+           "Constraints": translate_constraints, "NeuronClasses": translate_neuron_classes}
 
 
 def generate(outdir: str, modules: list[str] | None = None, repo: str = REPO):
